@@ -47,10 +47,11 @@ TBFree     == IsEv("bfree") /\ Ev.arg \in Blockers /\ BlockerFree(Ev.arg) /\ Mat
 TFree      == IsEv("free") /\ Free /\ Match
 TDispatch  == IsEv("dispatch") /\ Dispatch /\ Match
 TPoll      == IsEv("poll") /\ Ev.act \in Acts /\ Poll(Ev.act) /\ Match
+TPoll2     == IsEv("poll2") /\ Ev.act \in Acts2 /\ Poll2(Ev.act) /\ Match
 
 TInit == l = 1 /\ InitWith("idler")
 TNext == \/ TReset \/ TStart \/ TStop \/ TRestart \/ TSetStatus \/ TGetStatus
-         \/ TBAlloc \/ TBFree \/ TFree \/ TDispatch \/ TPoll
+         \/ TBAlloc \/ TBFree \/ TFree \/ TDispatch \/ TPoll \/ TPoll2
 TSpec == TInit /\ [][TNext]_tvars
 
 Accepted == LET d == TLCGet("stats").diameter IN
